@@ -1,12 +1,12 @@
 (* C20 — subscriber-identifying keys map to at most one subscriber.  Statements only; proofs are in
    Proofs/KeysProofs.v and Proofs/IndexesProofs.v.  Every theorem is closed by [exact] and followed by
-   Print Assumptions. *)
+   Print Assumptions.  "run ... ops" is a fold over an ARBITRARY operation list: no bound on length. *)
 From Coq Require Import NArith List Bool.
-From Verif Require Import Base.Word Model.Keys Proofs.KeysProofs.
+From Verif Require Import Base.Word Model.Keys Model.Indexes Proofs.KeysProofs Proofs.IndexesProofs.
 Import ListNotations.
 Local Open Scope N_scope.
 
-(* ---- qinq.Mapper: after ANY sequence of Register / Unregister / UnregisterSubscriber ---- *)
+(* ================= qinq.Mapper (Register / Unregister / UnregisterSubscriber) ================= *)
 Theorem C20_qinq_bijective : forall c subs probe ops v id,
   let st := q_run (q_init c subs probe) ops in
   aget (q_v2s st) v = Some id <-> aget (q_s2v st) id = Some v.
@@ -18,3 +18,155 @@ Theorem C20_qinq_in_range : forall c subs probe ops v id,
   aget (q_s2v st) id = Some v -> exists s x, v = pk s x /\ q_valid c s x = true.
 Proof. exact qinq_in_range. Qed.
 Print Assumptions C20_qinq_in_range.
+
+(* release: the pair is free, only its holder loses a mapping, and the pair can be registered again *)
+Theorem C20_qinq_unregister_frees : forall c subs probe ops s x,
+  let st := q_run (q_init c subs probe) ops in
+  let st' := q_next st (QUnreg s x) in
+  aget (q_v2s st') (pk s x) = None /\
+  (forall id, aget (q_s2v st) id <> Some (pk s x) -> aget (q_s2v st') id = aget (q_s2v st) id) /\
+  (forall id, aget (q_s2v st) id = Some (pk s x) -> aget (q_s2v st') id = None) /\
+  (forall id, q_valid c s x = true -> o_ret (snd (fst (q_step st' (QReg s x id)))) = RKey (pk s x)).
+Proof. exact qinq_unregister_frees. Qed.
+Print Assumptions C20_qinq_unregister_frees.
+
+Theorem C20_qinq_register_frame : forall c subs probe ops s x id id',
+  let st := q_run (q_init c subs probe) ops in
+  id' <> id -> aget (q_s2v (q_next st (QReg s x id))) id' = aget (q_s2v st) id'.
+Proof. exact qinq_register_frame. Qed.
+Print Assumptions C20_qinq_register_frame.
+
+(* ================= nexus.VLANAllocator (Allocate / AllocateWithSTag / Release / LoadFromStore) =====
+   on the code after the fix: commits 693c44e, c6ea5fb, ca4533f.  v_wf = both configured ranges non-empty *)
+Theorem C20_vlan_alloc_unique_in_range : forall c ntes probe ops,
+  v_wf c ->
+  let st := v_run (v_init c ntes probe) ops in
+  (forall n s x, aget (v_alloc st) n = Some (s, x) <-> get2 (v_usage st) s x = Some n) /\
+  (forall n s x, aget (v_alloc st) n = Some (s, x) -> in_s c s = true /\ in_c c x = true) /\
+  (forall n n' s x, aget (v_alloc st) n = Some (s, x) -> aget (v_alloc st) n' = Some (s, x) -> n = n').
+Proof. exact vlan_alloc_unique_in_range. Qed.
+Print Assumptions C20_vlan_alloc_unique_in_range.
+
+Theorem C20_vlan_exhausted_only_if_full : forall c ntes probe ops n,
+  v_wf c ->
+  let st := v_run (v_init c ntes probe) ops in
+  o_ret (snd (fst (v_step st (VAlloc n)))) = RErr EExhausted ->
+  forall s x, in_s c s = true -> in_c c x = true -> get2 (v_usage st) s x <> None.
+Proof. exact vlan_exhausted_only_if_full. Qed.
+Print Assumptions C20_vlan_exhausted_only_if_full.
+
+Theorem C20_vlan_release_frees : forall c ntes probe ops n s x,
+  v_wf c ->
+  let st := v_run (v_init c ntes probe) ops in
+  aget (v_alloc st) n = Some (s, x) ->
+  let st' := v_next st (VRelease n) in
+  aget (v_alloc st') n = None /\ get2 (v_usage st') s x = None /\
+  (forall n', n' <> n -> aget (v_alloc st') n' = aget (v_alloc st) n') /\
+  (forall s' x', (s', x') <> (s, x) -> get2 (v_usage st') s' x' = get2 (v_usage st) s' x').
+Proof. exact vlan_release_frees. Qed.
+Print Assumptions C20_vlan_release_frees.
+
+(* non-vacuity: a range that ends at 65535, filled, released and re-filled; tags stay in range *)
+Example C20_vlan_example :
+  let c := {| v_ss := 65534; v_se := 65535; v_cs := 65535; v_ce := 65535 |} in
+  v_wf c /\
+  map (fun o => o_ret (snd (fst (v_step (v_run (v_init c [] []) [VAlloc 0; VAlloc 1]) o))))
+      [VAlloc 2; VAllocS 0 65535; VAllocS 0 0] = [RErr EExhausted; RErr EExhausted; RErr ERange] /\
+  aget (v_alloc (v_run (v_init c [] []) [VAlloc 0; VAlloc 1; VRelease 0; VAlloc 2])) 2 = Some (65534, 65535).
+Proof. vm_compute. repeat split; discriminate. Qed.
+
+(* ================= pppoe.SessionManager (CreateSession / RemoveSession) =====================
+   on the code after commits 420446d (skip id 0 on wrap) and e9f5407 (refuse when the table is full) *)
+Theorem C20_session_ids_unique : forall next pids pmacs ops,
+  1 <= next <= 65535 ->
+  let st := s_run (s_init next pids pmacs) ops in
+  (forall x y, In x (s_live st) -> In y (s_live st) -> sid x = sid y -> x = y) /\
+  (forall x, In x (s_live st) -> 1 <= sid x <= 65535 /\ aget (s_sess st) (sid x) = Some (shold x, smac x)) /\
+  (forall id h mac, aget (s_sess st) id = Some (h, mac) -> In (h, id, mac) (s_live st)).
+Proof. exact session_ids_unique. Qed.
+Print Assumptions C20_session_ids_unique.
+
+Theorem C20_session_create_fresh : forall next pids pmacs ops h mac id,
+  1 <= next <= 65535 ->
+  let st := s_run (s_init next pids pmacs) ops in
+  o_ret (snd (fst (s_step st (SCreate h mac)))) = RKey id ->
+  aget (s_sess st) id = None /\ 1 <= id <= 65535.
+Proof. exact session_create_fresh. Qed.
+Print Assumptions C20_session_create_fresh.
+
+(* the MAC index: refuted for two sessions from one MAC (known finding K20a, marker 2005) ... *)
+Theorem C20_session_mac_index_agrees_refuted :
+  exists ops, ~ mac_index_agrees (s_run (s_init 1 [] []) ops).
+Proof. exact session_mac_index_agrees_refuted. Qed.
+Print Assumptions C20_session_mac_index_agrees_refuted.
+
+(* ... and proved, in both directions, for histories in which live sessions have pairwise distinct MACs
+   (decidable guard s_guard, the one the harness uses for its guarded stream) *)
+Theorem C20_session_mac_index_agrees_partial : forall next pids pmacs ops st,
+  1 <= next <= 65535 ->
+  s_run_g (s_init next pids pmacs) ops = Some st ->
+  (forall x, In x (s_live st) -> aget (s_mac st) (smac x) = Some (sid x)) /\
+  (forall mac id, aget (s_mac st) mac = Some id -> exists h, In (h, id, mac) (s_live st)).
+Proof. exact session_mac_index_agrees_partial. Qed.
+Print Assumptions C20_session_mac_index_agrees_partial.
+
+(* non-vacuity: wrap-around inside the guard: ids 65535, 1, 2 (0 is skipped), MAC index intact *)
+Example C20_session_example :
+  exists st, s_run_g (s_init 65535 [] []) [SCreate 0 10; SCreate 1 11; SRemove 65535; SCreate 2 10] = Some st /\
+             map sid (s_live st) = [1; 2] /\ aget (s_mac st) 10 = Some 2.
+Proof. eexists. split; [vm_compute; reflexivity|split; reflexivity]. Qed.
+
+(* ================= ebpf.MakeCircuitIDKey ===================================================== *)
+Theorem C20_circuit_key_length : forall l, length (ckey l) = 32%nat.
+Proof. exact ckey_length. Qed.
+Print Assumptions C20_circuit_key_length.
+
+(* injective on circuit-ids of at most 32 bytes that do not end in a zero byte *)
+Theorem C20_circuit_key_injective_partial : forall a b,
+  (length a <= 32)%nat -> (length b <= 32)%nat ->
+  trailing_zero a = false -> trailing_zero b = false ->
+  ckey a = ckey b -> a = b.
+Proof. exact ckey_injective_partial. Qed.
+Print Assumptions C20_circuit_key_injective_partial.
+
+(* not injective: zero padding (known finding K20c, marker 2011) ... *)
+Theorem C20_circuit_key_injective_refuted_padding : ~ (forall a b, ckey a = ckey b -> a = b).
+Proof. exact ckey_injective_refuted_padding. Qed.
+Print Assumptions C20_circuit_key_injective_refuted_padding.
+
+(* ... and truncation beyond 32 bytes, even without trailing zeros (known finding K20b, marker 2010) *)
+Theorem C20_circuit_key_injective_refuted_truncation :
+  exists a b, length a = 33%nat /\ length b = 33%nat /\ trailing_zero a = false /\ trailing_zero b = false /\
+              a <> b /\ ckey a = ckey b.
+Proof. exact ckey_injective_refuted_truncation. Qed.
+Print Assumptions C20_circuit_key_injective_refuted_truncation.
+
+(* ================= primary map + secondary indexes ===========================================
+   state.Store (kinds 0-3), subscriber.Manager (kind 4), allocator.MemoryAllocationStore (kind 5) *)
+Theorem C20_idx_agree_refuted_duplicate_key :      (* known finding K20d, marker 2020 *)
+  exists ops, ~ idx_agree (i_run (i_init 1 [] []) ops).
+Proof. exact idx_agree_refuted_duplicate_key. Qed.
+Print Assumptions C20_idx_agree_refuted_duplicate_key.
+
+Theorem C20_idx_agree_refuted_update :             (* known finding K20e, marker 2021 *)
+  exists ops, ~ idx_agree (i_run (i_init 2 [] []) ops).
+Proof. exact idx_agree_refuted_update. Qed.
+Print Assumptions C20_idx_agree_refuted_update.
+
+Theorem C20_idx_agree_refuted_reassign :           (* known finding K20f, marker 2022 *)
+  exists ops, ~ idx_agree (i_run (i_init 4 [] []) ops).
+Proof. exact idx_agree_refuted_reassign. Qed.
+Print Assumptions C20_idx_agree_refuted_reassign.
+
+(* every store kind: Create with an unused id and keys no other entity holds, AssignAddress of an unheld
+   address to a session without one, and any Delete keep primary map and indexes in agreement
+   (decidable guard i_guard; record updates of kinds 0-3 are outside this theorem) *)
+Theorem C20_idx_agree_partial : forall kind ids probe ops st,
+  i_run_g (i_init kind ids probe) ops = Some st -> idx_agree st.
+Proof. exact idx_agree_partial. Qed.
+Print Assumptions C20_idx_agree_partial.
+
+Example C20_idx_example :
+  exists st, i_run_g (i_init 4 [] []) [ICreate 0 [(0, 1)]; ICreate 1 [(0, 2)]; IUpdate 0 [(1, 9)]; IDelete 1] = Some st /\
+             get2 (i_idx st) 1 9 = Some 0.
+Proof. exact idx_guard_satisfiable. Qed.
